@@ -56,7 +56,7 @@ def incF (B : List String) : Expr → Bool
 
 mutual
 /-- statements of the slice: `e;`, `x := e`, `var x = e`, `var x`, `x = e`, `x op= e`, `x++`, `x--` (uncaptured locals),
-    blocks, `if c { … }`, `if c { … } else { … }`, `else if` (also with the literal `true` as condition), `return`,
+    blocks, `if c { … }`, `if c { … } else { … }`, `else if` (also with the literal `true` as condition), `if init; c { … }` (init a statement of the slice), `return`,
     `return e`, the empty statement -/
 def StmtF : List String → Stmt → Bool
   | _, .empty _ => true
@@ -71,6 +71,10 @@ def StmtF : List String → Stmt → Bool
   | B, .block _ body => StmtsF B body
   | B, .if_ _ none c _ body none => condF B c && StmtsF B body
   | B, .if_ _ none c _ body (some e) => condF B c && StmtsF B body && ElseF B e
+  | B, .if_ _ (some i) c _ body none =>
+      StmtF B i && (ExprF (bnd (defsOf B i)) c && !isBoolLit c) && StmtsF (defsOf B i) body
+  | B, .if_ _ (some i) c _ body (some e) =>
+      StmtF B i && (ExprF (bnd (defsOf B i)) c && !isBoolLit c) && StmtsF (defsOf B i) body && ElseF (defsOf B i) e
   | _, .return_ _ none => true
   | B, .return_ _ (some e) => ExprF (bnd B) e
   | _, _ => false
@@ -98,6 +102,8 @@ def needS : Stmt → Nat
   | .declValue _ _ [(_, _, [])] => 2
   | .incdec _ _ _ _ => 2
   | .block _ body => needL body
+  | .if_ _ (some i) c _ body none => max (needS i) (max (need c) (needL body))
+  | .if_ _ (some i) c _ body (some e) => max (needS i) (max (need c) (max (needL body) (needS e)))
   | .if_ _ _ c _ body none => max (need c) (needL body)
   | .if_ _ _ c _ body (some e) => max (need c) (max (needL body) (needS e))
   | .return_ _ (some e) => need e
